@@ -38,6 +38,16 @@ def raise_deferred(rep):
         raise AnalysisError(rep.deferred[0])
 
 
+def only_reported(node):
+    """The value is merely an argument of a logging / print call (it takes no part in finding files)."""
+    p = getattr(node, '_parent', None)
+    while p is not None and not isinstance(p, ast.stmt):
+        if isinstance(p, ast.Call) and ((dotted(p.func) or '').split('.')[0] in ('log', 'logging', 'logger', 'warnings') or dotted(p.func) == 'print'):
+            return True
+        p = getattr(p, '_parent', None)
+    return False
+
+
 def classify_sink(pv, q, name, arg):
     """('ok' | 'bad' | 'unknown', kinds) for the path argument of a filesystem call."""
     ks = set(pv.kinds(arg, q)) - {'NoneK'}
@@ -72,6 +82,8 @@ def check_sinks(rep, facts, cg, pv, rule, reach):
     for q in reach:
         for n in walk_fn(cg.funcs[q]):
             if is_cwd_expr(n):
+                if only_reported(n):
+                    continue
                 g = pv.cwd_guard(q, n)
                 if g == 'unknown':
                     defer(rep, '{}: the conditions under which the working directory ({}) is consulted are not understood: no verdict'.format(q, unparse(n)))
@@ -203,10 +215,10 @@ def check_reader(rep, facts, cg, pv, reach):
             for arg in bound.get(path_param, []):
                 ks |= pv.kinds(arg, q)
             ks -= {'NoneK'}
-            if ks & UNCLASSIFIED and not ks & BAD:
-                defer(rep, '{}: the path handed to the recursive read could not be classified ({})'.format(q, sorted(ks)))
-            elif ks != {'Resolved'}:
+            if ks & BAD or not ks:
                 problems.append('passes a {} path'.format('/'.join(sorted(ks)) or 'missing'))
+            elif ks != {'Resolved'}:
+                defer(rep, '{}: the path handed to the recursive read could not be classified ({})'.format(q, sorted(ks)))
             for p in flag_params:
                 vals = bound.get(p, [])
                 if not (vals and all(isinstance(v, ast.Constant) and v.value is True for v in vals)):
@@ -216,7 +228,7 @@ def check_reader(rep, facts, cg, pv, reach):
                 for arg in bound.get(p, []):
                     dk |= pv.kinds(arg, q)
                 dk -= {'NoneK'}
-                if dk & UNCLASSIFIED:
+                if dk - DIRKINDS:
                     defer(rep, '{}: the directory list handed to the recursive read could not be classified ({})'.format(q, sorted(dk)))
                 elif 'Dir' not in dk:
                     problems.append('does not hand the caller\'s include directories down ({} is {})'.format(p, '/'.join(sorted(dk)) or 'None'))
@@ -327,9 +339,27 @@ def parts_of(value):
     return [('opaque', v)]
 
 
-def judge_contribution(rep, where, cond, recs, parts, node, fallback_line):
-    """One path of the per-line processing: an include line contributes exactly the lines of the included file, any other line at
-    most itself.  Returns 'include' | 'plain' | 'opaque'."""
+def implies_blank(test, pol):
+    """The outcome `pol` of `test` holds exactly when a piece of text is empty after stripping (`not x.strip()`,
+    `len(x.strip()) == 0`, `x.strip() == ''`, `not x.split()` ...): decided by evaluating the test for an empty and a non-empty
+    stripped text."""
+    from ..symeval import SymEval, Undecided
+    pieces = find_all(test, lambda v: v[0] == 'mcall' and v[2] in ('strip', 'lstrip', 'rstrip', 'split') and not v[3] and not v[4])
+    for m in pieces:
+        empty, full = ('', 'x') if m[2] != 'split' else ([], ['x'])
+        try:
+            a = bool(SymEval(None, {m: empty}).ev(test))
+            b = bool(SymEval(None, {m: full}).ev(test))
+        except (Undecided, AttributeError):
+            continue
+        if a == pol and b != pol:
+            return True
+    return False
+
+
+def judge_contribution(rep, where, cond, recs, parts, node, fallback_line, path=None):
+    """One path of the per-line processing: an include line contributes exactly the lines of the included file, any other line
+    itself - nothing only when the line is blank.  Returns 'include' | 'plain' | 'opaque'."""
     line = getattr(node, 'lineno', fallback_line)
     if any(k == 'opaque' for k, _ in parts):
         defer(rep, '{}: what `{}` adds to the line list is not understood: no verdict'.format(where, show(next(v for k, v in parts if k == 'opaque'))[:80]))
@@ -339,6 +369,15 @@ def judge_contribution(rep, where, cond, recs, parts, node, fallback_line):
         rep.check(ok, 'R14.3.splice', 'include path [{}]: the lines of the included file, and nothing else, are added at the position of the include line'.format(cond[-60:]),
                   lambda: Finding('R14.3.splice', where, node, 'the lines of an included file are not spliced in (once, alone) at the position of the include line', line=line))
         return 'include'
+    if not parts and path is not None and not any(implies_blank(t, pol) for t, pol, _ in path.conds):
+        # a non-blank line (an include line among them) that contributes nothing
+        other = [e for e in path.events if (e[0] == 'mcall' and e[2] in MUTATORS and e[2] not in ('add', 'discard', 'update', 'setdefault')) or e[0] in ('setitem', 'augstore')]
+        if other:
+            defer(rep, '{}: a line contributes nothing on the path [{}] but other containers change: not understood'.format(where, cond[-80:]))
+            return 'opaque'
+        rep.fail(Finding('R14.3.splice', where, node, 'on the path [{}] a non-blank source line (an include line, if the path handles one) contributes nothing to the line '
+                         'list: it is dropped instead of being kept / replaced by the included lines'.format(cond[-100:]), line=line), instance='dropped ' + cond[-60:])
+        return 'plain'
     ok = len(parts) <= 1 and all(k == 'one' for k, _ in parts)
     rep.check(ok, 'R14.3.splice', 'ordinary line: kept once, in order', lambda: Finding('R14.3.splice', where, node, 'source lines are not kept exactly once in order', line=line),
               nontrivial=False)
@@ -413,7 +452,7 @@ def check_splice(rep, facts, cg, fn, reader='read_lines', is_method=False):
                         unknown_mut = e
             if unknown_mut is not None:
                 continue        # reported by R14.3.order below
-            if judge_contribution(rep, reader, p.cond_text(), recs, parts, node or p.end_node or loop, fn.lineno) == 'include':
+            if judge_contribution(rep, reader, p.cond_text(), recs, parts, node or p.end_node or loop, fn.lineno, path=p) == 'include':
                 n_inc += 1
         bad = [n for n in ast.walk(fn) if isinstance(n, ast.Call) and isinstance(n.func, ast.Attribute) and n.func.attr in ('insert', 'sort', 'reverse', 'pop', 'remove', 'clear')
                and isinstance(n.func.value, ast.Name) and n.func.value.id == result]
@@ -443,7 +482,7 @@ def check_splice(rep, facts, cg, fn, reader='read_lines', is_method=False):
             if not rv:
                 defer(rep, '{}: a path returns nothing to flatten'.format(target))
                 continue
-            if judge_contribution(rep, target, p.cond_text(), recs, parts_of(rv[-1][1]), rv[-1][2], fn.lineno) == 'include':
+            if judge_contribution(rep, target, p.cond_text(), recs, parts_of(rv[-1][1]), rv[-1][2], fn.lineno, path=p) == 'include':
                 n_inc += 1
     rep.analysed['include paths through the reader loop'] = n_inc
 
@@ -475,6 +514,9 @@ def check_cli(rep, facts, cg, pv):
             continue
         for arg in bound.get(path_param, []):
             ok = pv.is_abs(arg, q)
+            if not ok and not pv.understood_relative(arg, q):
+                defer(rep, '{}: whether the input path `{}` is absolute is not understood'.format(q, unparse(arg)[:60]))
+                continue
             rep.check(ok, 'R14.4.cli', '{}: the input path is made absolute before assembling'.format(q),
                       lambda c=c, q=q: Finding('R14.4.cli', q, c, 'the input path is handed to assemble() without os.path.abspath', line=c.lineno))
         for p in dir_params:
@@ -482,11 +524,87 @@ def check_cli(rep, facts, cg, pv):
                 sources = []
                 pv.is_abs(arg, q, sources)
                 n_sources += len(sources)
-                for node, ok in sources:
+                for node, ok, nq in sources:
+                    if not ok and not pv.understood_relative(node, nq):
+                        defer(rep, '{}: whether the include directory `{}` is absolute is not understood'.format(nq or q, unparse(node)[:60]))
+                        continue
                     rep.check(ok, 'R14.4.cli', 'include dir `{}` is absolute'.format(unparse(node)),
                               lambda node=node, q=q: Finding('R14.4.cli', q, stmt_of(node), 'an include directory is stored relative to the working directory '
                                                              '(`{}` is neither os.path.abspath(...) nor built from an absolute directory)'.format(unparse(node)[:80]), line=node.lineno))
+                    if nq is not None:
+                        check_every_dir_kept(rep, facts, pv, node, nq)
     rep.analysed['cli include dir sources'] = n_sources
+
+
+def check_every_dir_kept(rep, facts, pv, source, q):
+    """R14.4.all-dirs: a directory list element built from the elements of a user-given list (the -i directories): every element
+    of that list must end up in the search list (validation may refuse, i.e. raise, but not silently skip)."""
+    from ..pathwalk import Walker, PathState
+    fn = pv.fn_of(q)
+    child, p = source, getattr(source, '_parent', None)
+    while p is not None and p is not fn:
+        if isinstance(p, (ast.ListComp, ast.SetComp, ast.GeneratorExp)):
+            gens = [g for g in p.generators if 'UserGiven' in pv.kinds(g.iter, q)]
+            if gens:
+                filt = [c for g in p.generators for c in g.ifs]
+                if filt:
+                    defer(rep, '{}: the -i directories are filtered by `{}`: not understood'.format(q, unparse(filt[0])[:60]))
+                else:
+                    rep.ok('R14.4.all-dirs', '{}: every element of `{}` is kept'.format(q, unparse(gens[0].iter)[:40]))
+                return
+        if isinstance(p, ast.For) and any(child is s for s in p.body) and 'UserGiven' in pv.kinds(p.iter, q):
+            grow = stmt_of(source)
+            st = PathState()
+            for a in pv.params(fn):
+                st.env[a] = ('name', a)
+            paths = Walker(facts).run(p.body, st)
+            for path in paths:
+                if path.end in ('raise', 'return'):
+                    continue
+                kept = any(ev[-1] is grow for ev in path.events if isinstance(ev[-1], ast.AST))
+                if kept and path.end != 'break':
+                    continue
+                # a path on which the directory is not added: harmless only for a directory that was already added
+                skips = [(t, pol) for t, pol, _ in path.conds if t[0] == 'cmp' and t[1] in ('in', 'not in') and (t[1] == 'in') == pol]
+                verdict = 'dropped'
+                for t, pol in skips:
+                    holder = t[3]
+                    if holder[0] == 'name':
+                        init = empty_initialised(pv, fn, q, holder[1], p)
+                        verdict = {True: 'duplicate', False: 'seeded'}.get(init, verdict)
+                    elif holder[0] != 'name':
+                        # the walker saw the initial value of the collection
+                        verdict = 'duplicate' if holder in (('set', ()), ('list', ()), ('dict', ()), ('call', 'set', (), ())) else 'seeded'
+                if verdict == 'duplicate':
+                    continue
+                if verdict == 'dropped' and skips:
+                    defer(rep, '{}: a -i directory is skipped on the path [{}]: not understood'.format(q, path.cond_text()[-80:]))
+                    continue
+                node = path.end_node or p
+                rep.fail(Finding('R14.4.all-dirs', q, node, 'on the path [{}] a directory given with -i is not added to the search list{}: the include search then '
+                                 'depends on how / from where the directory was spelled'.format(
+                                     path.cond_text()[-100:], ' (the collection of already seen directories does not start empty)' if verdict == 'seeded' else ''),
+                                 line=getattr(node, 'lineno', p.lineno)), instance='dropped ' + path.cond_text()[-60:])
+            rep.ok('R14.4.all-dirs', '{}: the loop over `{}` was followed'.format(q, unparse(p.iter)[:40]), nontrivial=False)
+            return
+        child, p = p, getattr(p, '_parent', None)
+
+
+def empty_initialised(pv, fn, q, name, loop):
+    """The local `name` is bound before `loop` to an empty collection (True), to a non-empty literal collection (False), or to
+    something else / nothing (None)."""
+    for st in fn.body:
+        if st is loop:
+            break
+        if isinstance(st, ast.Assign) and any(isinstance(t, ast.Name) and t.id == name for t in st.targets):
+            v = st.value
+            if (isinstance(v, (ast.List, ast.Set, ast.Tuple)) and not v.elts) or (isinstance(v, ast.Dict) and not v.keys) \
+                    or (isinstance(v, ast.Call) and dotted(v.func) in ('set', 'list', 'dict') and not v.args and not v.keywords):
+                return True
+            if isinstance(v, (ast.List, ast.Set, ast.Tuple, ast.Dict)) or (isinstance(v, ast.Call) and dotted(v.func) in ('set', 'list', 'dict', 'frozenset')):
+                return False
+            return None
+    return None
 
 
 def run(repo, tier):
